@@ -10,7 +10,8 @@
     the old-file reader returns full reads until the end of the file; reads and writes do not
     fail; the patched file behaves like a POSIX file under forward seek / write / truncate. *)
 From Wharf Require Import Base.Prelude Overlay.Writer Overlay.Patch Overlay.Codec
-  Overlay.WindowProofs Overlay.WriterProofs Overlay.SessionProofs Overlay.CodecProofs.
+  Overlay.WindowProofs Overlay.WriterProofs Overlay.SessionProofs Overlay.CodecProofs
+  Exec.C14Sweep Overlay.SweepProofs.
 Local Open Scope N_scope.
 
 (** One session: for any old content, any sequence of Write calls (of any sizes, empty ones
@@ -94,6 +95,16 @@ Print Assumptions window_ok.
 Theorem real_codec_is_prefix_code : forall o rest, dec (enc o ++ rest) = Some (o, rest).
 Proof. exact dec_enc_real. Qed.
 Print Assumptions real_codec_is_prefix_code.
+
+(** The statement of [overlay_correct] / [overlay_sessions] evaluated exhaustively in the model at
+    tiny parameters (window 4 / threshold 1 up to 6 bytes, 3/1, 2/0, 1/2): every new content
+    over two symbols, every old length, every partition into writes, with and without flushes,
+    every two-session split with stale bytes (Exec/C14Sweep.v).  A test of the statement and
+    of the executable instantiation, not a substitute for the proofs above. *)
+Theorem tiny_parameter_sweep :
+  sweep 4 1 6 = true /\ sweep 3 1 6 = true /\ sweep 2 0 5 = true /\ sweep 1 2 4 = true.
+Proof. exact (conj sweep_4_1 (conj sweep_3_1 (conj sweep_2_0 sweep_1_2))). Qed.
+Print Assumptions tiny_parameter_sweep.
 
 (** non-vacuity, bufSize 4 / threshold 1: old "aaaaaaaa", new "aaXaaaaY", written as 3+5 bytes
     with a Flush in between; the overlay holds header, SKIP 2, FRESH "X", FRESH "aaaaY"... and
